@@ -43,8 +43,8 @@ MANIFEST = dict(
           "pass; the three orbit regimes of Minor partition e in [0, 1] as documented (e < 0.98, |e - 1| < 1e-10, "
           "otherwise) and both light-time passes use the same regime; light-time structure: the second position is "
           "evaluated at Epoch(epoch - 0.0057755183 Delta) with Delta the first-pass distance, the Earth at the "
-          "epoch itself. What the code does with the Sun for the elongation (the light-time SHIFTED epoch) and with "
-          "the parabolic branch (no light time in the second pass) is stated as coded. Every numerical agreement "
+          "epoch itself. the minor bodies' elongation argument is in [-1, 1] (Cauchy-Schwarz); what the code does with the Sun "
+          "for the planets' elongation (the light-time SHIFTED epoch) is stated as coded. Every numerical agreement "
           "(direction to 0.02 / 1e-4 deg, elongation to 0.02 deg, maximum elongations) is covered only by the "
           "bit-exact correspondence run of the binary64 model and by the predicates evaluated on the implementation; "
           "'the caller's Epoch is not shifted' is checked dynamically (snapshot before / after)."),
